@@ -3,7 +3,9 @@
 package p07
 
 import (
+	"bytes"
 	"encoding/hex"
+	"encoding/json"
 	"fmt"
 	"os"
 	"strconv"
@@ -218,6 +220,16 @@ func (P) exec(line string) string {
 			return hex.EncodeToString(h)
 		}
 		return hex.EncodeToString(txscript.VerifCalcSignatureHash(script, ht, tx, idx))
+	case "legacyvec": // Bitcoin Core's sighash.json: digest must equal the published value
+		tx := decTx(f[2])
+		h, err := txscript.CalcSignatureHash(unhx(f[5]), txscript.SigHashType(uint32(atoi(f[4]))), tx, int(atoi(f[3])))
+		if err != nil {
+			return "err"
+		}
+		if hex.EncodeToString(h) == f[6] {
+			return "match"
+		}
+		return hex.EncodeToString(h)
 	case "wit", "witapi":
 		tx := decTx(f[2])
 		spent := decSpent(f[3])
@@ -506,8 +518,47 @@ func shapeCounts(r *core.Rand) (int, int) {
 var interestingHT = []uint32{0, 1, 2, 3, 4, 0x1f, 0x20, 0x21, 0x22, 0x23, 0x41, 0x7f, 0x80, 0x81, 0x82, 0x83, 0x84, 0x9f, 0xa3, 0xe2, 0xff,
 	0x100, 0x101, 0x183, 0x10003, 0x80000001, 0xffffffff, 0xffffff03, 0xffffff82}
 
+// Bitcoin Core's legacy sighash vectors shipped with btcd (independent reference values)
+func genVectors(g *core.Gen) {
+	repo := os.Getenv("VERIF_REPO")
+	if repo == "" {
+		repo = "/repo"
+	}
+	b, err := os.ReadFile(repo + "/txscript/data/sighash.json")
+	if err != nil {
+		return
+	}
+	var tests [][]interface{}
+	if json.Unmarshal(b, &tests) != nil {
+		return
+	}
+	for _, t := range tests {
+		if len(t) != 5 {
+			continue
+		}
+		raw, err := hex.DecodeString(t[0].(string))
+		if err != nil {
+			continue
+		}
+		var tx wire.MsgTx
+		if tx.Deserialize(bytes.NewReader(raw)) != nil {
+			continue
+		}
+		script, _ := hex.DecodeString(t[1].(string))
+		idx := int(t[2].(float64))
+		ht := uint32(int32(int64(t[3].(float64))))
+		want, err := chainhash.NewHashFromStr(t[4].(string))
+		if err != nil {
+			continue
+		}
+		g.Case("legacy-core-vector", true, fmt.Sprintf("C07 legacyvec %s %d %d %s %s", encTx(&tx), idx, ht, hx(script),
+			hex.EncodeToString(want[:])))
+	}
+}
+
 func (P) Generate(g *core.Gen) {
 	r := g.R
+	genVectors(g)
 
 	// ---- legacy: all 256 hash types x every index (incl. out of range) on a few shapes
 	for k := 0; k < g.N(6, 60); k++ {
